@@ -231,6 +231,10 @@ def run(tier='quick'):
                         'there - otherwise the directory ends up with both layouts, which load rejects, or a new '
                         'library is laid over the files of an old one', floor=2)
     creators_refuse_existing(prog, chk, X5)
+    X6 = chk.rule('X6', 'create_database / create_temporary_database hand every enumerator that has a creator (3.0.0 '
+                        'included) to the library class of its generation: a 2.x / 3.x schema created through the legacy '
+                        'path is not the reference schema of its version and is not recognised on load', floor=2)
+    _c13.create_dispatch(prog, chk, X6)
     return chk.finish(
         'Static comparison of DDL: the statement list each of the %d creator classes executes '
         '(final overriders resolved by class hierarchy, read from the clang AST) is interpreted over '
